@@ -93,4 +93,6 @@ def panel (f : Feat) : Panel :=
     prog := prog f,
     ctrl := .ssd (Ssd.por false 22 296) }
 
+attribute [driver_simp] W slice setRamArea setRamCounter useFullFrame setLutHelper init updateFrame displayFrame updateNewFrame displayNewFrame prog
+
 end EpdVerif.Drivers.Epd2in9_v2
